@@ -13,4 +13,9 @@ theorem Conn_write_matches : ∀ wErr flate fErr mwErr clErr : Bool,
     run (envConnWrite wErr flate fErr mwErr clErr) g_c_Conn_write = connWriteExpected wErr flate fErr mwErr clErr := by
   decide +kernel
 
+theorem msgWriter_Close_matches : ∀ lockErr closed flate flushErr frameErr takeover : Bool,
+    run (envMwClose lockErr closed flate flushErr frameErr takeover) g_c_msgWriter_Close
+      = mwCloseExpected lockErr closed flate flushErr frameErr takeover := by
+  decide +kernel
+
 end WS.Props.G2
